@@ -133,6 +133,11 @@ def run(chk):
     r = analyse(chk, GP, lambda I, st, fi: dict(values=rec_array("values"), ptype=const_av("all")), setup=_tag)
     unmodelled_in(r, chk, "R-IDX", c)
     tk = [e for e in r.events("lib-call", GP) if e.name == "numpy.take"]
+    # the same mapping spelt as integer-array indexing: map[indices]
+    fx = [e for e in r.events("subscript", GP) if e.index is not None and e.index.kind == K_ARRAY and e.index.dtype == "int" and
+          e.base.kind == K_ARRAY and e.base.dtype == "int"]
+    if not tk and len(fx) == 1:
+        tk = [type("TakeLike", (), {"args": [fx[0].base, fx[0].index], "loc": fx[0].loc, "node": fx[0].node})()]
     if len(tk) == 1:
         a0, a1 = tk[0].args[:2]
         chk.ob("R-IDX", c + "{map}", "np.take maps through the index map returned by the cleaning call",
@@ -169,6 +174,8 @@ def run(chk):
     r = analyse(chk, q, lambda I, st, fi: dict(values=rec_array("values")))
     cd = "eqsig/fns/peaks_and_crossings.py:determine_indices_of_peaks_for_cleaned_array"
     pr = r.ret.parts
+    if pr is not None and not all(isinstance(x, tuple) and x and x[0] in ("const", "sym", "arr", "val") for x in pr):
+        pr = None
     okp = pr is not None and len(pr) == 3 and pr[0] == ("const", 0) and pr[1][0] == "arr" and "where-index" in pr[1][1] and \
         pr[2] == ("sym", repr(LinExpr("n") - 1))
     chk.ob("R-IDX", cd + "{ends}", "the result is index 0, the turning points, index len(values)-1, in that order (np.insert or np.concatenate)", okp,
